@@ -39,7 +39,14 @@ def base_consts(**kw):
              RandomOrder=False, CtlOps=set(), HostCtlOps=set(), AllowManual=False,
              FailModes={False}, MaxMsgs=3, MaxSteps=3, MaxCtl=2, MaxLatCtl=0)
     c.update(kw)
+    if "RegOrder" not in c:
+        c["RegOrder"] = reg(*range(1, c["N"] + 1))
     return c
+
+
+def reg(*hosts):
+    """Registration order as a cfg substitution by one of the RegXYZ operators of TopLink.tla."""
+    return vlib.Raw("<- Reg" + "".join(str(h) for h in hosts))
 
 
 def mc_configs(pid, tier):
@@ -89,7 +96,11 @@ def gen_configs(pid, tier):
     q = tier == "quick"
     if pid == "C03":
         cfgs = [("gen_part", base_consts(GMin=1, GMax=1, LatChoices={0, 3}, CtlOps=set(PART_OPS),
-                                         HostCtlOps={"partition_oneway"}, MaxMsgs=2, MaxSteps=3, MaxCtl=2, MaxLatCtl=1))]
+                                         HostCtlOps={"partition_oneway"}, MaxMsgs=2, MaxSteps=3, MaxCtl=2, MaxLatCtl=1)),
+                # the host with the greater address is registered first
+                ("gen_part_reg21", base_consts(GMin=1, GMax=1, LatChoices=set(), CtlOps={"partition_oneway", "repair_oneway"},
+                                               HostCtlOps={"repair_oneway"}, MaxMsgs=2, MaxSteps=3, MaxCtl=2, MaxLatCtl=0,
+                                               RegOrder=reg(2, 1)))]
         if not q:
             cfgs.append(("gen_part_3msg", base_consts(GMin=2, GMax=2, LatChoices={0}, CtlOps=set(PART_OPS),
                                                       HostCtlOps={"repair_oneway"}, MaxMsgs=3, MaxSteps=3, MaxCtl=2, MaxLatCtl=1)))
@@ -116,9 +127,13 @@ def gen_configs(pid, tier):
 def random_configs(pid, tier, seed):
     q = tier == "quick"
     runs = 25 if q else 150
-    base = [dict(n=3, tick=2, gmin=0, gmax=5), dict(n=2, tick=1, gmin=1, gmax=3), dict(n=4, tick=3, gmin=0, gmax=7)]
+    # reg = registration order of the hosts (numbered in address order): the second and third
+    # configurations register them in an order that differs from the address order
+    base = [dict(n=3, tick=2, gmin=0, gmax=5), dict(n=2, tick=1, gmin=1, gmax=3, reg="2,1"),
+            dict(n=4, tick=3, gmin=0, gmax=7, reg="3,1,4,2")]
     if pid == "C14":
         base.append(dict(n=3, tick=2, gmin=2, gmax=6))      # non-zero minimum strictly below the maximum
+        base.append(dict(n=3, tick=1, gmin=3, gmax=5, reg="2,3,1"))   # minimum above two ticks, sparse links
     if not q:
         base += [dict(n=3, tick=5, gmin=2, gmax=4), dict(n=4, tick=1, gmin=0, gmax=9), dict(n=2, tick=2, gmin=3, gmax=3)]
     return [dict(c, runs=runs, seed=seed * 101 + i, mode=MODE[pid]) for i, c in enumerate(base)]
@@ -127,14 +142,18 @@ def random_configs(pid, tier, seed):
 ALL_OPS = set(PART_OPS + HOLD_OPS)
 
 
-def trace_consts(n, tick, gmin, gmax):
+def regof(rc):
+    return [int(x) for x in rc["reg"].split(",")] if rc.get("reg") else None
+
+
+def trace_consts(n, tick, gmin, gmax, regorder=None):
     big = set(range(0, 64))
-    return dict(N=n, Tick=tick, GMin=gmin, GMax=gmax, LatChoices=big, MaxChoices=big, Offsets=set(range(0, tick)),
+    return dict(RegOrder=reg(*(regorder or range(1, n + 1))), N=n, Tick=tick, GMin=gmin, GMax=gmax, LatChoices=big, MaxChoices=big, Offsets=set(range(0, tick)),
                 RandomOrder=True, CtlOps=ALL_OPS, HostCtlOps=ALL_OPS, AllowManual=True, FailModes={False},
                 MaxMsgs=100000, MaxSteps=100000, MaxCtl=100000, MaxLatCtl=100000)
 
 
-def validate_trace(pid, path, n, tick, gmin, gmax, tag, impl=True):
+def validate_trace(pid, path, n, tick, gmin, gmax, tag, impl=True, regorder=None):
     """Returns (prop_result, impl_result)."""
     env = {"TRACE": os.path.abspath(path)}
     pcfg = vlib.cfg_text("TSpec", dict(N=n, Tick=tick), invariants=PROP_INVS[pid], postcondition="Accepted")
@@ -143,7 +162,7 @@ def validate_trace(pid, path, n, tick, gmin, gmax, tag, impl=True):
         raise MachineryError(f"trace validation (prop) failed: {pr.error or 'timeout'}")
     ir = None
     if impl:
-        icfg = vlib.cfg_text("TSpec", trace_consts(n, tick, gmin, gmax), invariants=PROP_INVS[pid] + ["ImplInv"],
+        icfg = vlib.cfg_text("TSpec", trace_consts(n, tick, gmin, gmax, regorder), invariants=PROP_INVS[pid] + ["ImplInv"],
                              postcondition="Accepted")
         ir = vlib.run_tlc(SUB, "TopLinkTrace", icfg, tag + "_impl", workers=1, env=env, dfs=True, heap="3g", timeout=900)
         if ir.error or ir.timed_out:
@@ -205,7 +224,7 @@ def run(pid, tier, seed, replay=None):
         spath = os.path.join(w, f"{name}.summary.json")
         out = vlib.run_driver("toplink", ["replay", f"in={bpath}", f"out={spath}", f"traces={w}",
                                           f"n={consts['N']}", f"tick={consts['Tick']}", f"gmin={consts['GMin']}",
-                                          f"gmax={consts['GMax']}"])
+                                          f"gmax={consts['GMax']}", "reg=" + regarg(consts)])
         s = json.load(open(spath))
         log(f"[{pid}] {name}: {len(behs)} TLC behaviours, {out.strip()}")
         ck.traces += s["behaviours"]
@@ -225,7 +244,7 @@ def run(pid, tier, seed, replay=None):
         tpath = os.path.join(w, "corpus.ndjson")
         vlib.run_driver("toplink", rp["args"] + [f"out={tpath}"])
         rc = rp["cfg"]
-        pr, _ = validate_trace(pid, tpath, rc["n"], rc["tick"], rc["gmin"], rc["gmax"], f"{pid}_corpus", impl=False)
+        pr, _ = validate_trace(pid, tpath, rc["n"], rc["tick"], rc["gmin"], rc["gmax"], f"{pid}_corpus", impl=False, regorder=regof(rc))
         ck.add_tlc(pr, "trace_corpus")
         ck.traces += rc["runs"]
         log(f"[{pid}] corpus {cf}: {'ok' if not (pr.violated or pr.unmatched) else 'REJECTED'}")
@@ -239,7 +258,7 @@ def run(pid, tier, seed, replay=None):
         args = ["random"] + [f"{k}={v}" for k, v in rc.items()] + [f"out={tpath}"]
         out = vlib.run_driver("toplink", args)
         nev = count_lines(tpath)
-        pr, ir = validate_trace(pid, tpath, rc["n"], rc["tick"], rc["gmin"], rc["gmax"], f"{pid}_rnd{i}")
+        pr, ir = validate_trace(pid, tpath, rc["n"], rc["tick"], rc["gmin"], rc["gmax"], f"{pid}_rnd{i}", regorder=regof(rc))
         ck.add_tlc(pr, f"trace_prop_{i}")
         ck.add_tlc(ir, f"trace_impl_{i}")
         ck.traces += rc["runs"]
@@ -266,7 +285,7 @@ def run(pid, tier, seed, replay=None):
     tpath = os.path.join(w, "random_0.ndjson")
     bad = os.path.join(w, "random_0_corrupt.ndjson")
     if corrupt_trace(tpath, bad, seed):
-        pr, ir = validate_trace(pid, bad, rc["n"], rc["tick"], rc["gmin"], rc["gmax"], f"{pid}_bind")
+        pr, ir = validate_trace(pid, bad, rc["n"], rc["tick"], rc["gmin"], rc["gmax"], f"{pid}_bind", regorder=regof(rc))
         rejected = bool(pr.violated or pr.unmatched or ir.violated or ir.unmatched)
         ck.extra["binding_demo"] = {"corruption": "one recv event re-addressed to another host",
                                     "rejected": rejected}
@@ -298,7 +317,7 @@ def judge_divergence(ck, pid, name, consts, d):
                       "behaviour": d.get("behaviour"), "divergence": d})
         return
     pr, _ = validate_trace(pid, tr, consts["N"], consts["Tick"], consts["GMin"], consts["GMax"],
-                           f"{pid}_div", impl=False)
+                           f"{pid}_div", impl=False, regorder=[int(x) for x in regarg(consts).split(",")])
     if pr.violated or pr.unmatched:
         ck.violation({"kind": "behaviour", "property": pid, "config": name, "consts": jsonable(consts),
                       "behaviour": d.get("behaviour"), "divergence": {k: v for k, v in d.items() if k != "behaviour"},
@@ -308,8 +327,16 @@ def judge_divergence(ck, pid, name, consts, d):
             f"but the PropSpec accepts the observation")
 
 
+def regarg(consts):
+    r = consts.get("RegOrder")
+    txt = r.s if isinstance(r, vlib.Raw) else (r or "")
+    digits = [ch for ch in txt.replace("<- Reg", "") if ch.isdigit()]
+    return ",".join(digits) if digits else ",".join(str(i) for i in range(1, consts["N"] + 1))
+
+
 def jsonable(c):
-    return {k: (sorted(v, key=str) if isinstance(v, (set, frozenset)) else v) for k, v in c.items()}
+    return {k: (sorted(v, key=str) if isinstance(v, (set, frozenset)) else (v.s if isinstance(v, vlib.Raw) else v))
+            for k, v in c.items()}
 
 
 def do_replay(ck, path):
@@ -322,7 +349,8 @@ def do_replay(ck, path):
         open(bpath, "w").write(json.dumps(rp["behaviour"]) + "\n")
         spath = os.path.join(w, "summary.json")
         vlib.run_driver("toplink", ["replay", f"in={bpath}", f"out={spath}", f"traces={w}", f"n={consts['N']}",
-                                    f"tick={consts['Tick']}", f"gmin={consts['GMin']}", f"gmax={consts['GMax']}"])
+                                    f"tick={consts['Tick']}", f"gmin={consts['GMin']}", f"gmax={consts['GMax']}",
+                                    "reg=" + regarg(consts)])
         s = json.load(open(spath))
         ck.traces = ck.evaluations = 1
         if not s["divergences"]:
@@ -333,7 +361,7 @@ def do_replay(ck, path):
         tpath = os.path.join(w, "random.ndjson")
         vlib.run_driver("toplink", rp["args"] + [f"out={tpath}"])
         rc = rp["cfg"]
-        pr, _ = validate_trace(pid, tpath, rc["n"], rc["tick"], rc["gmin"], rc["gmax"], f"{pid}_replay", impl=False)
+        pr, _ = validate_trace(pid, tpath, rc["n"], rc["tick"], rc["gmin"], rc["gmax"], f"{pid}_replay", impl=False, regorder=regof(rc))
         ck.add_tlc(pr, "replay")
         ck.traces = ck.evaluations = rc["runs"]
         if pr.violated or pr.unmatched:
